@@ -23,10 +23,10 @@ type Case struct {
 	Width int      `json:"width"`
 }
 
-var widths = map[string]int{"a": 1, "b": 1, " ": 1, "-": 1, "\n": 0, "宽": 2, "é": 1, "（": 2, "c": 1}
+var widths = map[string]int{"a": 1, "b": 1, " ": 1, "-": 1, "\n": 0, "宽": 2, "e\u0301": 1, "（": 2, "c": 1}
 
 func isWS(g string) bool     { return g == " " || g == "\n" }
-func isLetter(g string) bool { return g == "a" || g == "b" || g == "c" || g == "é" }
+func isLetter(g string) bool { return g == "a" || g == "b" || g == "c" || g == "e\u0301" }
 
 func ctx(w, h int) vxfw.DrawContext {
 	return vxfw.DrawContext{Max: vxfw.Size{Width: uint16(w), Height: uint16(h)}, Characters: vaxis.Characters}
@@ -395,7 +395,7 @@ func TestExhaustive(t *testing.T) {
 		t.Skip()
 	}
 	const sub = "exhaustive"
-	alpha := []string{"a", "b", " ", "-", "\n", "宽", "é"}
+	alpha := []string{"a", "b", " ", "-", "\n", "宽", "e\u0301"}
 	maxLen := 6
 	if harness.Thorough() {
 		alpha = append(alpha, "（")
@@ -441,7 +441,7 @@ func TestExhaustive(t *testing.T) {
 
 func TestRandomTexts(t *testing.T) {
 	const sub = "random"
-	alpha := []string{"a", "a", "b", "c", " ", " ", "-", "\n", "宽", "é", "（"}
+	alpha := []string{"a", "a", "b", "c", " ", " ", "-", "\n", "宽", "e\u0301", "（"}
 	n := harness.PerShard(harness.Scale(40_000, 3_000_000))
 	harness.Check(t, sub, n, func(rt *rapid.T) Case {
 		k := rapid.IntRange(0, 200).Draw(rt, "len")
